@@ -293,6 +293,10 @@ def check_sample(ctx, case, small, s, expected, idx):
 
 
 def finalize(ctx):
+    if ctx.tier == "thorough" and ctx.shard == 0:  # ambient contracts while the repository's own pinned tests run
+        from vf import ambient
+
+        ambient.run_tests(ctx, "C11", ["tests/data/test_instance_centroids.py", "tests/data/test_instance_cropping.py", "tests/data/test_resizing.py", "tests/data/test_get_data_chunks.py"], ["purity:generate_centroids", "purity:apply_sizematcher"])
     ctx.require("reads", 30)
     ctx.require("samples_checked", 20)
     ctx.require("probe_evaluations", 100)
